@@ -519,12 +519,17 @@ class ExprMixin:
             if lo is None and chi == 3: return base
             return VTuple(base.items()[clo:chi])
         if isinstance(base, VRef) and "$l" in st.heap.get(base.oid, {}) and any(isinstance(i, tuple) for i in st.heap[base.oid]["$l"].items):
-            if not (lo is None and chi == -1): raise Unsupported("only [:-1] is supported on a list with guarded elements")
             g = [(i[1], i[2]) if isinstance(i, tuple) else (T, i) for i in st.heap[base.oid]["$l"].items]
             out = []
-            for k, (p, v) in enumerate(g):
-                later = OR(*[q for q, _ in g[k + 1:]])
-                out.append(("$g", simp(AND(p, later)), v))           # present and not the last present one
+            if lo is None and chi == -1:
+                for k, (p, v) in enumerate(g):
+                    later = OR(*[q for q, _ in g[k + 1:]])
+                    out.append(("$g", simp(AND(p, later)), v))           # present and not the last present one
+            elif clo == 1 and hi is None:
+                for k, (p, v) in enumerate(g):
+                    earlier = OR(*[q for q, _ in g[:k]])
+                    out.append(("$g", simp(AND(p, earlier)), v))         # present and not the first present one
+            else: raise Unsupported("only [:-1] and [1:] are supported on a list with guarded elements")
             return st.alloc("list", {"$l": VList(out)})
         if isinstance(base, VRef) and "$l" in st.heap.get(base.oid, {}):
             if (lo is None or clo is not None) and (hi is None or chi is not None):
